@@ -152,6 +152,12 @@ def drive(case: dict):
                     accepted.append(("?bad-accepted",))
                 continue
             send(i, to_api(bad, api), ("?bad-accepted",))
+            if case.get("cut_after_reject"):
+                # the caller salvages what was accepted so far by cutting a frame by hand
+                try:
+                    emit(stream.flow.to_stream_frame())
+                except Exception:  # noqa: BLE001
+                    pass
         else:
             send(i, to_api(st, api), T.norm_st(st))
     declared: list = []
@@ -245,6 +251,8 @@ def shard(job) -> dict:
                 variants.append({**base, "reenter": True})
             if cls == "graph" and cause != "short_tuple" and n >= 2:
                 variants.append({**base, "pregen": True})
+            if pos >= 1 and pos < n - 1 and frame_size == 250:
+                variants.append({**base, "cut_after_reject": True})
             if cls == "graph" and n >= 2 and frame_size == 250:
                 # flows that cut per dataset / never (not by size)
                 variants.append({**base, "logical": 4})
